@@ -112,16 +112,16 @@ EXTRA = {
              f"{side}-extreme-sub{sub}") for side in ("cli", "srv") for sub in (0, 1, 2)],
 }
 
-# families judged by the monitors only for the time being (projection = op lines): the models do not yet carry the
-# timer clamp of fix 8f28306, so their observations differ on far-away deadlines
-MONITOR_ONLY = {"C16"}
+# families judged by the monitors only for the time being (projection = op lines): the server model does not yet
+# carry the timer clamp of fix 8f28306, so its observations differ on far-away deadlines
+MONITOR_ONLY = {("C16", "srv")}
 
 
 def families(prop, sides=("cli", "srv")):
     fams = []
     for side, q, t, tag in EXTRA.get(prop, []):
         if side in sides:
-            proj = [] if prop in MONITOR_ONLY else (CLI_PROJ if side == "cli" else SRV_PROJ)[prop]
+            proj = [] if (prop, side) in MONITOR_ONLY else (CLI_PROJ if side == "cli" else SRV_PROJ)[prop]
             nt = (CLI_NONTRIVIAL if side == "cli" else SRV_NONTRIVIAL)[prop]
             f = trace.Family(side, q, t, project=projector(proj), nontrivial=nt,
                              rule=f"{side} scripts with {' '.join(q[2:])}: as the plain family plus boundary / long-range values "
